@@ -54,6 +54,13 @@ def load_known():
 def _child_main(modname, cases_path, out_path, start, stop):
     """Run cases[start:stop] sequentially; append one JSON line per case to out_path."""
     sys.setswitchinterval(0.0005)
+    # a shell that starts us as a background job leaves SIGINT ignored, and an ignored disposition is inherited through
+    # exec by every spawned child: signal-delivery cases (C12) would then silently do nothing.  Install the normal handler.
+    try:
+        signal.signal(signal.SIGINT, signal.default_int_handler)
+        signal.signal(signal.SIGTERM, signal.SIG_DFL)
+    except Exception:
+        pass
     mod = importlib.import_module(modname)
     cases = json.load(open(cases_path))
     out = open(out_path, 'a', buffering=1)
@@ -374,8 +381,14 @@ def main(argv=None):
 
     if not samples and results:
         samples = [r.get('sample') or by_cid.get(r['cid']) for r in results[:3]]
+    n_eval = len(results)
+    ekeys = getattr(mod, 'EVALUATIONS_KEYS', None)
+    if ekeys:
+        # a case may hold many executions (e.g. a whole DFS tree, 500 scripts): count the executions, measured by the check itself
+        n_eval = int(sum(obs_total.get(k, 0) for k in ekeys)) or len(results)
     coverage = {
-        'evaluations': len(results),
+        'evaluations': n_eval,
+        'case_groups_run': len(results),
         'distinct_nontrivial': len(nontrivial_sigs),
         'rule': getattr(mod, 'RULE', ''),
         'samples': samples,
